@@ -162,6 +162,7 @@ func (cx *Ctx) buildFuncUnitOnce(fn *ssa.Function, fc *FuncContract, blacklist m
 		fr.vals[p] = v
 	}
 	fr.entry = st.clone()
+	fr.preRegisterGhosts()
 	env := fr.specEnv(st, st)
 	for _, c := range fc.Requires {
 		u.assume(env.trBool(c.E))
